@@ -246,6 +246,35 @@ def rawsql_history(sql1: str, sql2: str) -> bool:
     return ok(warm == cold)
 
 
+def adapt_history_keys(t1: str, t2: str) -> bool:
+    """
+    pre: len(t1) <= 2 and len(t2) <= 2
+    pre: all(c in " aA" for c in t1) and all(c in " aA" for c in t2)
+    post: _
+    """
+    # cache-key discipline: two statements that differ only in blanks or letter case are different statements
+    return ok(_history_body(t1, t2, 'qmark', False, False))
+
+
+def rawsql_history_keys(sql1: str, sql2: str) -> bool:
+    """
+    pre: 1 <= len(sql1) <= 2 and 1 <= len(sql2) <= 2
+    pre: all(c in " aA" for c in sql1) and all(c in " aA" for c in sql2)
+    post: _
+    """
+    def norm(r):
+        return tuple(it if isinstance(it, str) else it[0] for it in r[0]), len(r[1])
+    ormtypes.raw_sql_cache.clear()
+    try: ormtypes.parse_raw_sql(sql1)
+    except Exception: pass
+    try: warm = norm(ormtypes.parse_raw_sql(sql2))
+    except Exception: warm = 'error'
+    ormtypes.raw_sql_cache.clear()
+    try: cold = norm(ormtypes.parse_raw_sql(sql2))
+    except Exception: cold = 'error'
+    return ok(warm == cold)
+
+
 # one harness per parameter style (explored in parallel worker processes)
 
 def adapt_single_qmark(sql: str) -> bool:
